@@ -131,6 +131,7 @@ fn main() {
 
     core::install_panic_hook();
     core::cleanup_scratch();
+    core::cleanup_stale_scratch();
     let ctx = Ctx::new(&id, tier, seed);
     // watchdog: a run that exceeds three times its wall cap or 40 GiB is a machinery failure
     {
